@@ -215,8 +215,12 @@ def specFrom : Nat → List Pkt → List (Option Pkt)
 /-- everything group `i` received in the history -/
 def arrOf (H : List (List (List Pkt))) (i : Nat) : List Pkt := (H.map fun a => a.getD i []).flatten
 
+def maxList : List Nat → Nat
+  | [] => 0
+  | a :: as => max a (maxList as)
+
 /-- first global sequence number common to all groups: `max (l0 + 1 - sync)` -/
-def startSN (L : List GL) : Nat := (L.map fun g => g.l0 + 1 - g.sync).foldl max 0
+def startSN (L : List GL) : Nat := maxList (L.map fun g => g.l0 + 1 - g.sync)
 
 /-- packets of group `g` that precede the common start -/
 def skipOf (S : Nat) (g : GL) : Nat := S + g.sync - (g.l0 + 1)
@@ -224,11 +228,18 @@ def skipOf (S : Nat) (g : GL) : Nat := S + g.sync - (g.l0 + 1)
 def specOf (g : GL) (H : List (List (List Pkt))) (i : Nat) : List (Option Pkt) :=
   specFrom (g.l0 + 1) (arrOf H i)
 
+/-- minimum of a list (0 for the empty list) -/
+def minOr : List Nat → Nat
+  | [] => 0
+  | [a] => a
+  | a :: b :: as => min a (minOr (b :: as))
+
 /-- number of whole packets available in every group from the common start on -/
 def navail (L : List GL) (H : List (List (List Pkt))) : Nat :=
-  match (L.zipIdx.map fun (g, i) => (specOf g H i).length - skipOf (startSN L) g) with
-  | [] => 0
-  | a :: as => as.foldl min a
+  minOr ((List.range L.length).map fun i =>
+    match L[i]? with
+    | none => 0
+    | some g => (specOf g H i).length - skipOf (startSN L) g)
 
 /-- a channel stream `xs` consists of the pieces `E`: an arrived packet contributes exactly its
 samples of channel `c`, a lost packet `fpp` filler samples (any values) -/
@@ -252,13 +263,19 @@ def chkFrames : Int → List Block → Bool
 
 /-- per channel, the concatenated blocks are exactly the expected stream of `navail` packets from the common start -/
 def chkStream (fpp : Nat) (L : List GL) (H : List (List (List Pkt))) (bs : List Block) : Bool :=
-  L.zipIdx.all fun (g, i) =>
-    (List.range g.nchan).all fun c =>
-      streamOK fpp g.nchan c (((specOf g H i).drop (skipOf (startSN L) g)).take (navail L H)) (catChan bs i c)
+  (List.range L.length).all fun i =>
+    match L[i]? with
+    | none => true
+    | some g =>
+      (List.range g.nchan).all fun c =>
+        streamOK fpp g.nchan c (((specOf g H i).drop (skipOf (startSN L) g)).take (navail L H)) (catChan bs i c)
 
 /-- frames filled in so far: `fpp` for each lost packet of each group -/
 def lostFrames (fpp : Nat) (L : List GL) (H : List (List (List Pkt))) : Nat :=
-  (L.zipIdx.map fun (g, i) => fpp * ((specOf g H i).length - (arrOf H i).length)).sum
+  ((List.range L.length).map fun i =>
+    match L[i]? with
+    | none => 0
+    | some g => fpp * ((specOf g H i).length - (arrOf H i).length)).sum
 
 /-- when the last tick of the history emitted a block, the dropped-frame counts reported so far
 add up to the frames filled in so far -/
@@ -274,7 +291,7 @@ def chkC03 (fpp : Nat) (L : List GL) (f0 : Int) (H : List (List (List Pkt))) (ou
   chkStream fpp L H (out.map (·.2)) && chkDropped fpp L H out
 
 /-- the input guard: every packet of group `i` carries `fpp` frames of `nchan` values, numbers are
-strictly increasing from `l0` on and `< 2^32`, and the sync offset is not beyond `l0 + 1` -/
+strictly increasing from `l0 + 1` on and `< 2^32`, and the sync offset is not beyond `l0 + 1` -/
 def pktOK (fpp nchan : Nat) (p : Pkt) : Bool := p.data.length == fpp * nchan
 
 def increasing : Nat → List Pkt → Bool
@@ -283,9 +300,12 @@ def increasing : Nat → List Pkt → Bool
 
 def validIn (fpp : Nat) (L : List GL) (H : List (List (List Pkt))) : Bool :=
   fpp ≥ 1 && !L.isEmpty && H.all (fun a => a.length == L.length) &&
-  L.zipIdx.all fun (g, i) =>
-    g.nchan ≥ 1 && g.sync ≤ g.l0 + 1 && increasing (g.l0 + 1) (arrOf H i) &&
-    (arrOf H i).all (fun p => pktOK fpp g.nchan p && p.sn < 4294967296)
+  (List.range L.length).all fun i =>
+    match L[i]? with
+    | none => true
+    | some g =>
+      g.nchan ≥ 1 && g.sync ≤ g.l0 + 1 && increasing (g.l0 + 1) (arrOf H i) &&
+      (arrOf H i).all (fun p => pktOK fpp g.nchan p && p.sn < 4294967296)
 
 /-! ### Driver -/
 
@@ -370,7 +390,7 @@ def runLine (ts : List String) : Verdict :=
     let L : List GL := gs0.map fun g => { nchan := g.nchan, l0 := g.lastSN, sync := g.sync }
     let H := cs.hist
     let allp := (List.range L.length).flatMap fun i => arrOf H i
-    let fpp := match (L.zipIdx.filterMap fun (g, i) => (arrOf H i).head?.map fun p => p.data.length / g.nchan) with
+    let fpp := match ((List.range L.length).filterMap fun i => (arrOf H i).head?.map fun p => p.data.length / (L.getD i ⟨1, 0, 0⟩).nchan) with
       | [] => 1
       | f :: _ => f
     let valid := validIn fpp L H
